@@ -175,7 +175,8 @@ func runWorker(bin string, env map[string]string, timeout time.Duration) workerO
 	defer os.Remove(tmp.Name())
 	cmd := exec.Command(bin, "-test.run", "^TestWorker$", "-test.timeout", "0", "-test.count", "1")
 	cmd.Dir = filepath.Join(root, "sim")
-	cmd.Env = append(os.Environ(), "VERIF_OUT="+tmp.Name(), "GORACE=halt_on_error=0 log_path="+tmp.Name()+".race")
+	// race build: stop at the first report so that it is attributed to the run in progress (START without END)
+	cmd.Env = append(os.Environ(), "VERIF_OUT="+tmp.Name(), "GORACE=halt_on_error=1 exitcode=66")
 	for k, v := range env {
 		cmd.Env = append(cmd.Env, k+"="+v)
 	}
@@ -493,7 +494,7 @@ func check(args []string) {
 				}
 				// the process died inside a run: attribute it to the seed that had started
 				mu.Lock()
-				crashes = append(crashes, fmt.Sprintf("%s\n%s", wo.lastSeed, tailLines(wo.stderr, 25)))
+				crashes = append(crashes, fmt.Sprintf("%s\n%s", wo.lastSeed, tailLines(wo.stderr, 400)))
 				mu.Unlock()
 				first += int64(n+1) * int64(nw)
 			}
@@ -502,10 +503,15 @@ func check(args []string) {
 	wg.Wait()
 
 	// 3. process crashes: confirm by re-running that one seed in a fresh process
-	for _, c := range crashes {
+	sort.Strings(crashes)
+	for ci, c := range crashes {
+		if ci >= 3 {
+			fmt.Printf("(%d further worker crashes not confirmed individually)\n", len(crashes)-3)
+			break
+		}
 		parts := strings.SplitN(c, "\n", 2)
 		if parts[0] == "" {
-			fmt.Fprintf(os.Stderr, "worker died outside a run:\n%s\n", parts[1])
+			fmt.Fprintf(os.Stderr, "worker died outside a run:\n%s\n", tailLines(parts[1], 40))
 			die(2, "WORKER-TROUBLE")
 		}
 		s, _ := strconv.ParseUint(parts[0], 10, 64)
@@ -513,6 +519,15 @@ func check(args []string) {
 		env := map[string]string{"VERIF_MODE": "gen", "VERIF_PROP": prop, "VERIF_TIER": tier, "VERIF_SEED": fmt.Sprint(seed),
 			"VERIF_FIRST": fmt.Sprint(idx), "VERIF_STRIDE": "1", "VERIF_COUNT": fmt.Sprint(idx + 1), "VERIF_FAMILY": family}
 		wo := runWorker(bin, env, 10*time.Minute)
+		isRace := strings.Contains(parts[1], "DATA RACE")
+		for try := 0; isRace && !wo.crashed && try < 4; try++ {
+			// a race report is a true positive, but whether the detector sees it again depends on real thread timing
+			wo = runWorker(bin, env, 10*time.Minute)
+		}
+		if isRace && !wo.crashed {
+			wo.crashed = true
+			wo.stderr = "(data race reported in the batch run; not reported again in 5 replays of the seed alone)\n" + parts[1]
+		}
 		if wo.crashed {
 			// write the program out for the replay file
 			path := filepath.Join(root, "replays", fmt.Sprintf("%s-%d-crash.json", prop, s))
@@ -520,13 +535,16 @@ func check(args []string) {
 				"VERIF_FIRST": fmt.Sprint(idx), "VERIF_FAMILY": family, "VERIF_PROGRAM": path}
 			runWorker(bin, envE, time.Minute)
 			detail := tailLines(wo.stderr, 25)
+			if isRace {
+				detail = raceSummary(wo.stderr)
+			}
 			if kf := matchKnown(findings, prop, "process-crash", detail); kf != nil {
 				fmt.Printf("KNOWN-FINDING: property=%s %s [%s]\n", prop, kf.What, kf.ID)
 			} else {
 				reportViolation(path, "process-crash", detail)
 			}
 		} else {
-			fmt.Fprintf(os.Stderr, "worker died at seed %s but the seed passes alone:\n%s\n", parts[0], parts[1])
+			fmt.Fprintf(os.Stderr, "worker died at seed %s but the seed passes alone:\n%s\n", parts[0], tailLines(parts[1], 30))
 			die(2, "WORKER-TROUBLE (not reproducible)")
 		}
 	}
@@ -756,4 +774,16 @@ func buildEvidence(prop, tier string, seed int64, meta PropMeta, all []Result, w
 		"wall_s":      wall,
 		"violations":  violations,
 	}
+}
+
+func raceSummary(stderr string) string {
+	i := strings.Index(stderr, "WARNING: DATA RACE")
+	if i < 0 {
+		return tailLines(stderr, 25)
+	}
+	lines := strings.Split(stderr[i:], "\n")
+	if len(lines) > 40 {
+		lines = lines[:40]
+	}
+	return strings.Join(lines, "\n")
 }
